@@ -1,6 +1,7 @@
 //! vcheck <property> <quick|thorough>   |   vcheck --replay <file>
 use vcore::runner::{Ctx, Tier};
 
+mod c01;
 mod c02;
 
 pub fn level_of(p: &str) -> &'static str {
@@ -12,6 +13,7 @@ pub fn level_of(p: &str) -> &'static str {
 
 fn dispatch(ctx: &Ctx, replay: Option<&serde_json::Value>) {
     match ctx.property.as_str() {
+        "C01" => c01::run(ctx, replay),
         "C02" => c02::run(ctx, replay),
         p => {
             eprintln!("unknown property {p}");
